@@ -1,5 +1,10 @@
 ---------------------------- MODULE Gen_BufWriter ----------------------------
-(* Generator for the writer: shortest history to every space_left value.   *)
+(* Generator for the writer: shortest history to every space_left value,   *)
+(* with a bit buffer that is all zeros and with one that holds stale bits  *)
+(* (after a completed word the code leaves the old content in place: the   *)
+(* word-aligned state of a fresh writer and that of a writer that has      *)
+(* delivered words differ there, and code that assumes a clean buffer      *)
+(* fails only in the second).                                              *)
 EXTENDS BufWriterImpl, TLC, Json
 
 VARIABLES st, hist
@@ -14,6 +19,6 @@ Next == /\ Len(hist) < 3
            \/ \E x \in 0..W : Go(WriteUnary(st, x), [op |-> "write_unary", x |-> x])
 
 Spec == Init /\ [][Next]_vars
-View == st.space
-Emit == PrintT(<<"PATH", ToJson([space |-> st.space, w |-> W, path |-> hist])>>)
+View == <<st.space, st.buf = VZero(W)>>
+Emit == PrintT(<<"PATH", ToJson([space |-> st.space, w |-> W, stale |-> st.buf # VZero(W), path |-> hist])>>)
 =============================================================================
